@@ -36,12 +36,12 @@ def g_pos(r, unc=0.2):
     return [r.choice(Q) * 4, r.choice(Q) * 2]
 
 
-def g_orient(r):
-    return r.choice([[0.1, 0.4], [-0.3, 0.2]]) if r.random() < 0.12 else r.choice([0.0, 0.5, -2.0, 3.1, 0.4, -1.0])
+def g_orient(r, pu=0.12):
+    return r.choice([[0.1, 0.4], [-0.3, 0.2]]) if r.random() < pu else r.choice([0.0, 0.5, -2.0, 3.1, 0.4, -1.0])
 
 
-def g_vel(r):
-    return r.choice([[1.0, 4.0], [20.0, 30.0]]) if r.random() < 0.12 else r.choice([0.0, 1.0, 2.0, 12.0, 20.0])
+def g_vel(r, pu=0.12):
+    return r.choice([[1.0, 4.0], [20.0, 30.0]]) if r.random() < pu else r.choice([0.0, 1.0, 2.0, 12.0, 20.0])
 
 
 def g_signal(r):
@@ -74,7 +74,9 @@ def g_obstacle(r, oid, role=None, focus=False):
         o = g_obstacle(r, oid, "dynamic")
         n = r.choice([2, 3, 6])
         o.update(type=r.choice(["CAR", "TRUCK", "BUS", "BICYCLE", "TAXI", "PARKED_VEHICLE"]), shape=["rect", 4.5, 2.0, 0.0, 0.0, 0.0],
-                 pred={"kind": "traj", "states": [{"pos": g_pos(r, 0.2), "orient": g_orient(r), "vel": g_vel(r)} for _ in range(n)]})
+                 pred={"kind": "traj", "states": [{"pos": g_pos(r, 0.4), "orient": g_orient(r, 0.4), "vel": g_vel(r, 0.3)} for _ in range(n)]})
+        if r.random() < 0.4:
+            o["init"].update(pos=g_pos(r, 0.5), orient=g_orient(r, 0.5))
         o["sigs"] = [g_signal(r) for _ in range(n)]
         o["sig0"] = g_signal(r)
         return o
